@@ -56,6 +56,87 @@ def rsim(ctx, V, exe, n, styles=("healthy", "mixed", "faults"), prefix="rsim", m
     return sessions
 
 
+def gen_overflow(rng, style="out"):
+    """directed histories around the 1 MiB client buffers (client.c: cbuf_create(MIN_CLIENT_BUF, MAX_CLIENT_BUF), policy
+    CBUF_WRAP_MANY): `out` = a client that does not read is owed more than 1 MiB (the oldest unsent bytes are overwritten);
+    `in` = a client sends more than 1 MiB without a newline (the oldest unparsed bytes are overwritten), then goes on normally"""
+    cfg = pmgen.gen_variant_config(rng, ndev=1)
+    for d in cfg.devs:
+        d.transport = "pipe"; d.timeout = 2.0
+    sc = pmcheck.Scenario(cfg, [], dict(style="overflow-" + style, ncli=2, max_rounds=4000))      # the daemon reads ~1000 bytes per pass into a full buffer
+    S = sc.script
+    S.append(("connect",)); S.append(("wait", 0)); S.append(("connect",)); S.append(("wait", 1))
+    if style == "out":
+        S.append(("raw", ["STALL c0 1"]))
+        n = rng.choice([760, 800, 900])
+        for _ in range(4):
+            S.append(("send", 0, b"help\r\n" * (n // 4))); S.append(("sleep", 1000))
+        S.append(("send", 1, b"nodes\r\n")); S.append(("wait", 1))
+        S.append(("raw", ["STALL c0 0"])); S.append(("sleep", 200000))
+        S.append(("send", 0, b"nodes\r\n")); S.append(("sleep", 200000))
+    else:
+        tot = rng.choice([1048576 + 5000, 1200000, 1048576 - 3])
+        chunk = 262144
+        sent = 0
+        while sent < tot:
+            m = min(chunk, tot - sent)
+            S.append(("send", 0, bytes([rng.choice(b"abcxyz019 ")]) * m)); S.append(("sleep", 1000)); sent += m
+        S.append(("send", 1, b"nodes\r\n")); S.append(("wait", 1))
+        S.append(("send", 0, b"\nhelp\r\n")); S.append(("sleep", 300000))
+    sc.requests = []
+    return sc
+
+
+def bounded_time_stage(ctx, V):
+    """the bounded-time clause on the real device layer (harness/dev_h.c = the unmodified device.c with stub transports, the
+    engine of R-DEV): a request queued on a device must be completed (complete_fun called: EV DONE) within BOUND device
+    time-outs of virtual time, whatever the peer does.  Directed histories: a silent peer, a peer that refuses connections,
+    a peer that sends garbage, and a FLAPPING peer (accepts at once, never answers the login, hangs up before the login's
+    deadline, again and again).  Theorems: C04_deadline_* (the first three are `steady`); the last one is F41."""
+    import C01, C08
+    BOUND = 20
+    consts = pmgen.load_genconsts(ctx.coq)
+    devh = C08.build_dev(ctx)
+    hx = lambda x: x.encode("latin-1").hex()
+    on = consts[pmgen.KINDS[pmgen.CLIENT_COMS["on"]]]
+
+    def case(timeout, body):
+        cfg = pmgen.Config()
+        d = pmgen.Dev("d0", ["login", "on"], hardwired=["p1"], timeout=timeout, ping=0)
+        d.bodies = {"login": 'send "login\\n"\n\t\texpect "ok"', "on": 'send "on %s\\n"\n\t\texpect "done"'}
+        cfg.devs.append(d); cfg.node_lines.append(("n1", "d0", "p1"))
+        return cfg, body
+
+    T = 100.0
+    us = lambda sec: int(sec * 1000000)
+    start = ["NOW 1000000", "INIT", "PASS", "NEWARGS " + hx("n1"), "ENQ %d 7 0 0 %s" % (on, hx("n1")), "NOW 1100000", "PASS"]
+    horizon = us(1 + (BOUND + 2) * T)
+    step = us(T / 2 + 1)
+    ticks = list(range(1100000 + step, horizon, step))
+    hist = {
+        "silent": ["PLAN 0 " + " ".join(["now"] * 60)] + start + sum([["NOW %d" % t, "PASS"] for t in ticks], []),
+        "refusing": ["PLAN 0 " + " ".join(["fail"] * 200)] + start + sum([["NOW %d" % t, "PASS"] for t in ticks], []),
+        "garbage": ["PLAN 0 " + " ".join(["now"] * 60)] + start + sum([["NOW %d" % t, "FEED 0 " + hx("zzz\n"), "PASS"] for t in ticks], []),
+        # hangs up every 61 s (> the longest back-off step, < the login's 100 s): a fresh login each time
+        "flapping": ["PLAN 0 " + " ".join(["now"] * 60)] + start + sum([["NOW %d" % (1000000 + 61000000 * k), "PEERCLOSE 0", "PASS"] for k in range(1, 40)], []),
+    }
+    for name, ops in hist.items():
+        cfg, ops = case(T, ops)
+        ops = [ops[1]] + [ops[0]] + ops[2:] if ops[0].startswith("PLAN") else ops        # NOW first, then the plan
+        rc, o, e = C08.run_impl(devh, ctx.scratch, 900 + len(name), cfg, ops)
+        V.case(("bounded-time", name), nontrivial=True); V.count("bounded-time:" + name)
+        if rc != 0:
+            V.violation("daemon-dies", "device-layer rc=%s" % rc, dict(history=name, ops=ops, config=cfg.text()), e[-400:]); continue
+        done = [l for l in o.splitlines() if l.startswith("EV DONE 7 ")]
+        last_now = max(int(x.split()[1]) for x in ops if x.startswith("NOW "))
+        if not done and last_now >= 1100000 + us(BOUND * T):
+            V.violation("bounded-time", name + "-login" if name == "flapping" else name, dict(history=name, ops=ops, config=cfg.text()),
+                        "the action queued for client 7 at 1.1 s on a device with time-out %g s has not been completed after %g s of virtual time "
+                        "(%d time-outs); last device state: %s" % (T, last_now / 1e6, int((last_now - 1100000) / us(T)), [l for l in o.splitlines() if l.startswith("DEV ")][-1][:300]))
+    V.rule = (V.rule + " || " if V.rule else "") + ("bounded time on the real device.c (dev_h): a queued request must be completed within %d device time-outs for a silent, "
+              "refusing, garbage-sending and flapping peer" % BOUND)
+
+
 def xpoll_correspond(ctx, V):
     """R-XPOLL: the real xpoll() (poll and gettimeofday wrapped: every poll call is interrupted as long as the case supplies
     clock readings) against Model/Xpoll.v; monitor: with a finite time-out no poll call may get a negative (= infinite) one"""
@@ -92,10 +173,15 @@ def xpoll_correspond(ctx, V):
 
 
 def run(ctx, V):
-    proofs_ok = vlib.proof_gate(ctx, V, extract=["Extract/ExDaemon.vo", "Extract/ExEnqueue.vo", "Extract/ExXpoll.vo"])
+    proofs_ok = vlib.proof_gate(ctx, V, extract=["Extract/ExDaemon.vo", "Extract/ExEnqueue.vo", "Extract/ExXpoll.vo", "Extract/ExDevice.vo"])
     xpoll_correspond(ctx, V)
+    bounded_time_stage(ctx, V)
     exe = pmsim.build(ctx)
     rsim(ctx, V, exe, int(os.environ.get('C04_N', 0)) or 300 if ctx.tier == "quick" else 6000, styles=("mixed", "faults", "healthy"), prefix="c04")
+    # the 1 MiB client buffers (overwrite of the oldest bytes): replayed through the model like every other run
+    if ctx.tier != "quick":       # ~3 minutes of model time per history (a million-element list per pass): thorough tier only
+        os.environ.setdefault("PMREPLAY_TIMEOUT", "2400"); pmreplay.MODEL_TIMEOUT = int(os.environ["PMREPLAY_TIMEOUT"])
+        rsim(ctx, V, exe, 4, styles=("out", "in"), prefix="c04over", monitors=("alive", "wedge"), gen=gen_overflow)
 
 
 def replay(ctx, V, path):
